@@ -52,6 +52,9 @@ def cells(tier, seed):
         if tier == "quick" and fam in ("matern_ard",) and (pre != "default" or q == 1):
             continue
         out.append({"fam": fam, "mb": list(mb), "fbp": fbp, "q": q, "pre": pre, "post": post, "depth": 3 if tier == "thorough" or fam == "exact" else 2})
+    for fam in ("exact", "fixednoise_learn"):
+        for q, post in itertools.product([1, 2], ["default", "fpv"]):
+            out.append({"fam": fam, "mb": [], "fbp": "none", "q": q, "pre": "default", "post": post, "depth": 2, "form": "vec"})
     if tier == "thorough":
         # deeper and wider: chains of four fantasies, three fantasy points, more kernels / means, a rank-2 model batch, eager / non-lazy kernels
         have = {util.jdump(c) for c in out}
@@ -208,7 +211,8 @@ def run_cell(cell, seed):
             f2 = dict(feats, level=level)
             try:
                 with ctx(cell["post"]):
-                    fm = cur.get_fantasy_model(Xf, yf, **kw)
+                    # d = 1 shorthand: fantasy inputs given as a vector of length q (the library adds the last dimension)
+                    fm = cur.get_fantasy_model(Xf.squeeze(-1) if cell.get("form") == "vec" else Xf, yf, **kw)
                 ops += 1
             except Exception as e:
                 fails.append({"sub": "get_fantasy_model", "symptom": util.exc_str(e), "detail": f"level={level} Xf{tuple(Xf.shape)} yf{tuple(yf.shape)}", "features": f2})
